@@ -1601,6 +1601,10 @@ class MacroFunction(Macro):
             res_tokens = copy(self.replacement)
 
         # Substitute each occurrence of an argument in the replacement
+        # Only tokens of the replacement list itself name parameters: tokens
+        # that came from an argument or were produced by # or ## must not be
+        # substituted again, even if they are spelled like a parameter.
+        parameter_tokens = {id(t) for t in self.replacement}
         substituted_tokens = []
         for token in res_tokens:
             substitution = []
@@ -1608,6 +1612,8 @@ class MacroFunction(Macro):
             # If a token matches an argument, it is substituted;
             # otherwise it passes through
             try:
+                if id(token) not in parameter_tokens:
+                    raise ValueError
                 substitution = input_args[self.args.index(token.token)][1]
                 if len(substitution) > 0:
                     substitution[0] = copy(substitution[0])
